@@ -756,9 +756,11 @@ func (context *layoutContext) makePage(rootBox bo.BlockLevelBoxITF, pageType uti
 	rootBox.Box().Children = append(outOfFlowBoxes, rootBox.Box().Children...)
 
 	footnoteArea = bo.CreateAnonymousBox(bo.Deepcopy(footnoteArea)).(*bo.FootnoteAreaBox)
+	context.inFootnoteArea = true
 	tmpBox, _, _ := blockLevelLayout(
 		context, footnoteArea, -pr.Inf, nil, &footnoteArea.Page.BoxFields,
 		true, &positionedBoxes, &positionedBoxes, nil, false, -1)
+	context.inFootnoteArea = false
 	footnoteArea = tmpBox.(*bo.FootnoteAreaBox)
 	footnoteArea.Translate(footnoteArea, 0, -footnoteArea.MarginHeight(), false)
 
